@@ -794,16 +794,24 @@ def c18(prop, tier, seed, wd, explore, limit, kinds, we):
     cases = spread("codes", "asan", seed, 16, 150 if tier == "quick" else 2000)
     # decode(encode) through the real users of the chunk table, on texts realising chosen frequency shapes
     HT = ["HTFC", "HHTFC", "RPHTFC", "HASHHF", "HASHUFFDAC"]
-    dc = P.basic_cases(prop, seed, tier, ops=("locate", "extract", "extractTable"), kinds=HT, per_input_states=1, families=["skewed", "uniform2", "uniform253", "lcp128x", "repetitive", "numerals", "extremes", "len1", "mixed", "words", "longshort"],
-                       n_random=33 if tier == "quick" else 300, corner=True)
+    dc = P.basic_cases(prop, seed, tier, ops=("locate", "extract", "extractTable"), kinds=HT, per_input_states=1, families=["skewed", "uniform2", "uniform253", "lcp128x", "repetitive", "numerals", "extremes", "len1", "mixed", "words", "longshort", "longcode", "dense", "uniform3", "uniform4", "tinydense"],
+                       n_random=48 if tier == "quick" else 300, corner=True)
     dc += P.numeral_sweep(prop, seed, tier, ("locate", "extract"), kinds=("HTFC", "HHTFC"))
     # texts of >= 2^17 characters with geometric symbol counts: codewords longer than the 16-bit chunk (decoding subtrees)
-    for v in range(1 if tier == "quick" else 6):
+    for v in range(2 if tier == "quick" else 8):
         r = P.rng_for(seed, prop, 990000 + v)
-        S = gen.fam_geometric_big(r, 30000)
+        S = gen.fam_geometric_big(r, 30000) if v % 2 == 0 else gen.fam_longcode(r, r.choice([3000, 8000, 16000]))
         for kind in HT:
-            pp = (16,) if kind in FC else (r.choice([10, 25, 50]),)
+            pp = (r.choice([16, 3, 5, 8]) if v else 16,) if kind in FC else (r.choice([10, 25, 50]),)
             dc.append(Case(kind, pp, "geometric_big:%d" % len(S), S, "own", 1, ("locate", "extract"), seed=gen.splitmix(seed, v, 31), cpu=600, tags=("gt16",)))
+    # tiny members (whole encoding within one byte) between longer ones, under every hash-table layout: the Huffman-coded hash kinds
+    # register chunks that span neighbouring strings in table order
+    for v in range(3 if tier == "quick" else 24):
+        r = P.rng_for(seed, prop, 995000 + v)
+        S = gen.fam_tinydense(r, r.choice([200, 839, 1500]))
+        for kind in ("HASHHF", "HASHUFFDAC"):
+            for ov in (0, 1, 10, 25, 50, 100, 300):
+                dc.append(Case(kind, (ov,), "tinydense:%d:%d" % (len(S), v), S, r.choice(["fresh", "own"]), r.choice([1, 2, 3]) if kind == "HASHHF" else 1, ("locate", "extract", "extractTable"), seed=gen.splitmix(seed, v, 37)))
     rule = ("code tables: Hu-Tucker and Huffman tables for seeded frequency vectors of 9 shapes (uniform, Zipf, geometric, Fibonacci-like, one dominant symbol, random with the +1 floor, two-level, text-like, few symbols) must be "
             "prefix-free (pairwise), complete (Kraft sum 1) and, for Hu-Tucker, strictly increasing as left-aligned bit strings; decode(encode) is checked through HTFC / HHTFC / RPHTFC / HASHHF / HASHUFFDAC dictionaries built on "
             "texts of skewed, tiny-alphabet, 253-symbol, long-shared-prefix and numeral shapes (locate/extract/table against the model); a case is one comp_driver process or one dictionary case")
